@@ -42,7 +42,7 @@ Definition occ_simple (c : ctxspec) (given : list nat) (o : occ) : bool :=
           && match inverse_of a with Some _ => true | None => false end
       | FNext, VS s | FEq, VS s =>
           takes_value a && negb (a_optional a) && plain s
-          && match a_kind a with KInt => intlike s | _ => true end
+          && castable a s
           && (akind_eqb (a_kind a) KList || negb (mem_nat (o_arg o) given))
       | _, _ => false
       end
@@ -110,23 +110,25 @@ Qed.
 (** [set_value] with a string on a value argument in a good state *)
 Lemma set_value_str r s :
   takes_value (r_spec r) = true ->
-  (a_kind (r_spec r) = KInt -> intlike s = true) ->
+  castable (r_spec r) s = true ->
   (a_kind (r_spec r) = KList -> exists l, r_val r = AList l) ->
   exists r', set_value r (IStr s) true = Ok r' /\ r_spec r' = r_spec r /\ r_raw r' = true /\
              aval_is_none (r_val r') = false /\
              (a_kind (r_spec r) = KList -> exists l, r_val r' = AList l).
 Proof.
-  intros Tv Hi Hl. unfold takes_value in Tv. unfold set_value, new_value.
+  intros Tv Hi Hl. unfold takes_value in Tv. unfold castable in Hi. unfold set_value, new_value.
   destruct (a_kind (r_spec r)) eqn:K; try discriminate.
   - destruct (a_incrementable (r_spec r)); [discriminate|]. simpl.
     eexists. split; [reflexivity|]. repeat split; try reflexivity. intros Kx; discriminate Kx.
   - destruct (a_incrementable (r_spec r)); [discriminate|]. simpl.
-    specialize (Hi eq_refl). unfold intlike in Hi.
     destruct (parse_int s); [|discriminate].
     eexists. split; [reflexivity|]. repeat split; try reflexivity. intros Kx; discriminate Kx.
   - destruct (a_incrementable (r_spec r)); [discriminate|].
     destruct (Hl eq_refl) as [l El]. unfold arg_value. rewrite El. simpl.
     eexists. split; [reflexivity|]. repeat split; try reflexivity. intros _. eexists. reflexivity.
+  - destruct (a_incrementable (r_spec r)); [discriminate|]. simpl.
+    destruct (cast_other ko_default ko_table s); try discriminate.
+    eexists. split; [reflexivity|]. repeat split; try reflexivity. intros Kx; discriminate Kx.
 Qed.
 
 Lemma steps_one p m t m' : step p m t = Ok (m', []) -> steps p m [t] m'.
@@ -273,7 +275,7 @@ Proof.
     assert (Tv' : takes_value (r_spec r) = true) by (rewrite Sr; exact Tv).
     assert (No' : a_optional (r_spec r) = false) by (rewrite Sr; exact No).
     destruct (set_value_str r s Tv') as [r' [SV [Sp [Rw [Nnone Hl]]]]].
-    { intros K. rewrite Sr in K. rewrite K in Hint. exact Hint. }
+    { rewrite Sr. exact Hint. }
     { intros K. eapply (so_list _ _ _ St); eauto. }
     unfold occ_input. rewrite Vo, SV. unfold text_of.
     exists (Some (S (List.length done), o_arg o)), true.
@@ -299,7 +301,7 @@ Proof.
     assert (Tv' : takes_value (r_spec r) = true) by (rewrite Sr; exact Tv).
     assert (No' : a_optional (r_spec r) = false) by (rewrite Sr; exact No).
     destruct (set_value_str r s Tv') as [r' [SV [Sp [Rw [Nnone Hl]]]]].
-    { intros K. rewrite Sr in K. rewrite K in Hint. exact Hint. }
+    { rewrite Sr. exact Hint. }
     { intros K. eapply (so_list _ _ _ St); eauto. }
     unfold occ_input. rewrite Vo, SV. unfold text_of.
     exists (Some (S (List.length done), o_arg o)), true.
